@@ -433,6 +433,13 @@ func runC18(r *mc.Run) {
 	for b := 1; b <= 128; b++ {
 		cases = append(cases, c18case{0, 0, -1, b << 8}, c18case{0, 5, -1, b << 8})
 	}
+	// a register of the (re-signed) quote differs from the replay while ANOTHER 48-byte field of the body holds the
+	// value the replay gives for it (lg>>8 = 200 + 7*register + field): only the register itself is compared
+	for reg := 0; reg < 4; reg++ {
+		for f := 0; f < 7; f++ {
+			cases = append(cases, c18case{0, 0, reg * 384, (200 + 7*reg + f) << 8}, c18case{0, 0, reg*384 + 383, (200 + 7*reg + f) << 8})
+		}
+	}
 	// lg bits 2 / 3: the header carries PCE SVN 5 / QE SVN 1 (bytes 05 00 / 01 00) resp. PCE SVN 0x0201 / QE SVN 0x0100
 	for p := svnFrom; p < svnTo; p++ {
 		cases = append(cases, c18case{0, p, -1, 4}, c18case{0, p, -1, 8})
@@ -522,7 +529,10 @@ func runC18(r *mc.Run) {
 		if c.lg&8 != 0 {
 			id += ",header-svns=pce0x0201/qe0x0100"
 		}
-		if fb := c.lg >> 8; fb > 64 {
+		c18Fields := []string{"mr_seam", "mrsigner_seam", "mr_td", "mr_config_id", "mr_owner", "mr_owner_config", "next-register"}
+		if fb := c.lg >> 8; fb >= 200 {
+			id += fmt.Sprintf(",replay-value-of-rtmr%d-in-%s", (fb-200)/7, c18Fields[(fb-200)%7])
+		} else if fb > 64 {
 			id += fmt.Sprintf(",xfam|=bit%d", fb-65)
 		} else if fb > 0 {
 			id += fmt.Sprintf(",td-attributes|=bit%d", fb-1)
@@ -544,7 +554,15 @@ func runC18(r *mc.Run) {
 		if c.lg&8 != 0 {
 			copy(p.Header[8:12], []byte{1, 2, 0, 1})
 		}
-		if fb := c.lg >> 8; fb > 64 {
+		if fb := c.lg >> 8; fb >= 200 {
+			rg, f := (fb-200)/7, (fb-200)%7
+			off := []int{16, 64, 136, 184, 232, 280, 328 + 48*((rg+1)%4)}[f]
+			if c.lg&1 == 1 && rg == 3 {
+				copy(p.Body[off:off+48], regs2[3][:])
+			} else {
+				copy(p.Body[off:off+48], append([]byte(nil), p.Body[328+48*rg:376+48*rg]...))
+			}
+		} else if fb > 64 {
 			p.Body[128+(fb-65)/8] |= 1 << uint((fb-65)%8)
 		} else if fb > 0 {
 			p.Body[120+(fb-1)/8] |= 1 << uint((fb-1)%8)
